@@ -1,4 +1,5 @@
 import ProductMD.Model.ComposeDir
+import ProductMD.Proofs.Checksum
 /-!
 # C20 — a compose directory is resolved to the same metadata in every supported layout
 
@@ -118,6 +119,48 @@ theorem C20_slash (w : World) (cp : Str) (hne : cp ≠ []) (hns : Str.endsWith c
         | some i => rfl
         | none => simp [Except.map, hj]
     · simp [Except.map, hj]
+
+/-! …and for a file system that IS a set of normalised paths (`World.ofTree`) those hypotheses are theorems -/
+
+theorem splitOn_snoc_sep (sep : Char) : ∀ (a : Str), Str.splitOn sep (a ++ [sep]) = Str.splitOn sep a ++ [[]] := by
+  intro a
+  induction a with
+  | nil => simp [Str.splitOn]
+  | cons c cs ih =>
+    simp only [List.cons_append, Str.splitOn, ih]
+    by_cases hc : c = sep
+    · simp [hc]
+    · simp only [hc, if_false]
+      cases hs : Str.splitOn sep cs with
+      | nil => exact absurd hs (Checksum.splitOn_ne_nil sep cs)
+      | cons h t => simp
+
+theorem key_slash (cp : Str) (hne : cp ≠ []) : key (cp ++ ['/']) = key cp := by
+  unfold key
+  rw [splitOn_snoc_sep]
+  cases cp with
+  | nil => exact absurd rfl hne
+  | cons c cs => simp [Str.startsWith, List.isPrefixOf]
+
+/-- trailing slash on a concrete tree: no hypothesis on the world is left, only that the path is not a regular file -/
+theorem C20_slash_tree (nodes : List ((Bool × List Str) × Bool)) (orders : List ((Bool × List Str) × List Str))
+    (loads : List ((Kind × (Bool × List Str)) × Except Err Str))
+    (cp : Str) (hne : cp ≠ []) (hns : Str.endsWith cp ['/'] = false)
+    (hsch : containsSub scheme (cp ++ ['/']) = containsSub scheme cp)
+    (hfile : nodes.lookup (key cp) ≠ some false) (rel : Str) :
+    (resolve (World.ofTree nodes orders loads) (cp ++ ['/'])).map (fun p => pathJoin p rel)
+      = (resolve (World.ofTree nodes orders loads) cp).map (fun p => pathJoin p rel) := by
+  apply C20_slash _ cp hne hns hsch
+  · have h1 : Str.endsWith (cp ++ ['/']) ['/'] = true := by
+      simp [Str.endsWith, List.isSuffixOf, List.reverse_append, List.isPrefixOf]
+    simp only [World.ofTree, key_slash cp hne, h1, hns]
+    cases hl : nodes.lookup (key cp) with
+    | none => rfl
+    | some d =>
+      cases d with
+      | true => rfl
+      | false => exact absurd hl hfile
+  · simp only [World.ofTree, key_slash cp hne]
 
 /-! ### candidate file names: current name first -/
 
